@@ -35,8 +35,8 @@ from .. import lie
 
 PID = "C20"
 LEVEL = "exploration"
-SHARDS = {"quick": 4, "thorough": 16}
-TIMEOUT = {"quick": 900, "thorough": 5400}
+SHARDS = {"quick": 8, "thorough": 16}
+TIMEOUT = {"quick": 1800, "thorough": 7200}
 RULE = ("(1) Exhaustive prefix tree of the real controller objects over the 6-letter abstract alphabet "
         "{decrease>=threshold, decrease<threshold, equal, increase, below-tol, rejected}, each letter realised by a "
         "concrete loss relative to the previous one and placed a factor >= 4 away from the threshold (exact dyadic "
@@ -257,12 +257,20 @@ def rtb_letter(letter, prev, dec, tol):
     return prev                                     # E, and R (a rejected step leaves the loss unchanged)
 
 
+class Flood(Exception):
+    """More than FLOOD violations already recorded: the verdict is decided, stop enumerating."""
+
+
+FLOOD = 400
+
+
 class Tally:
     def __init__(self):
         self.nodes = 0
         self.by_cause = {}
         self.max_depth = 0
         self.suffix_steps = 0
+        self.flooded = False
 
 
 def report(ck, monitor, regime, entry, mech, hist, real, ref, extra=None):
@@ -272,6 +280,8 @@ def report(ck, monitor, regime, entry, mech, hist, real, ref, extra=None):
     if extra:
         w.update(extra)
     ck.violation(monitor, regime, entry, mech, w)
+    if ck.n_violations > FLOOD:
+        raise Flood()
 
 
 def compare(ck, monitor, regime, entry, hist, real, ref, was_stopped):
@@ -359,7 +369,10 @@ def tree_sop(ck, steps, patience, depth, rng, tally, stub_cls=StubLM):
             d += 1
         del hist[n0:]
 
-    rec(root, ref0, SOP_START, 0, False)
+    try:
+        rec(root, ref0, SOP_START, 0, False)
+    except Flood:
+        tally.flooded = True
 
 
 def tree_rtb(ck, steps, patience, depth, rng, tally, dec=1e-3, reset_depth=4):
@@ -419,7 +432,10 @@ def tree_rtb(ck, steps, patience, depth, rng, tally, dec=1e-3, reset_depth=4):
             d += 1
         del hist[n0:]
 
-    rec(root, ref0, 1.0, 0, False)
+    try:
+        rec(root, ref0, 1.0, 0, False)
+    except Flood:
+        tally.flooded = True
 
 
 # ---------------------------------------------------------------------------------------------
@@ -481,6 +497,8 @@ def reset_clause(ck, node, kw, rng, regime, hist, n=8):
         ck.violation(monitor, regime, entry, "state_not_initial_after_reset",
                      {"history_before_reset": hist, "reset_state(cont,steps,patience_count)": list(state(r)),
                       "fresh_state": list(state(fresh)), "config": kw})
+        if ck.n_violations > FLOOD:
+            raise Flood()
         return
     trace_r, trace_f = [], []
     for x in seq:
@@ -492,6 +510,8 @@ def reset_clause(ck, node, kw, rng, regime, hist, n=8):
         ck.violation(monitor, regime, entry, "reset_differs_from_fresh",
                      {"history_before_reset": hist, "continuation": [plain_loss(x) for x in seq], "config": kw,
                       "reset_trace": [list(t) for t in trace_r], "fresh_trace": [list(t) for t in trace_f]})
+        if ck.n_violations > FLOOD:
+            raise Flood()
     elif trace_r != trace_f:
         ck.violation(monitor, regime, entry, "reset_counters_differ_from_fresh",
                      {"history_before_reset": hist, "continuation": [plain_loss(x) for x in seq], "config": kw,
@@ -883,11 +903,28 @@ def run(ck):
     depth = 7 if thorough else 6
     rng = ck.rng("c20")
 
+    # ---- 3: random sequences
+    nseq = 1500 if thorough else 250
+    random_rtb(ck, ck.rng("random-rtb"), nseq)
+    random_sop(ck, ck.rng("random-sop"), nseq)
+
+    # ---- 4: driver loops
+    nd = 40 if thorough else 10
+    drive_optimize(ck, ck.rng("drive-opt"), nd)
+    drive_mpc(ck, ck.rng("drive-mpc"), nd)
+    drive_icp(ck, ck.rng("drive-icp"), nd)
+
     # ---- 1+2: prefix trees (work items = controller x configuration, split over the shards)
-    items = [(c, s, p) for c in ("SoP", "RtB") for s in range(1, 7) for p in range(1, 5)]
+    # ReduceToBason items cost ~4x a StopOnPlateau item: deal them from opposite ends of the shard list
+    cfgs = [(s, p) for s in range(1, 7) for p in range(1, 5)]
+    items = [("RtB", s, p, j % ck.nshards) for j, (s, p) in enumerate(cfgs)] + \
+            [("SoP", s, p, (ck.nshards - 1 - j) % ck.nshards) for j, (s, p) in enumerate(cfgs)]
     swept = 0
-    for idx, (c, s, p) in enumerate(items):
-        if not ck.mine(idx):
+    for c, s, p, owner in items:
+        if owner != ck.shard:
+            continue
+        if ck.n_violations > FLOOD:
+            ck.note_add("tree_configurations_skipped_after_violation_flood", 1)
             continue
         tally = Tally()
         trng = ck.rng(f"tree/{c}/{s}/{p}")
@@ -898,7 +935,9 @@ def run(ck):
             tree_rtb(ck, s, p, depth, trng, tally)
             mon = "tree.ReduceToBason"
         expected = sum(6 ** l for l in range(1, depth + 1))
-        if tally.nodes != expected:
+        if tally.flooded:
+            ck.note_add("tree_configurations_cut_short_after_violation_flood", 1)
+        elif tally.nodes != expected:
             ck.inconclusive_because(f"tree {c} steps={s} patience={p}: visited {tally.nodes} nodes, expected {expected}")
         else:
             swept += 1
@@ -915,25 +954,14 @@ def run(ck):
     ck.note("tree_space", "every history over the 6-letter alphabet up to depth %d for every (steps 1..6) x (patience 1..4) "
                           "of both controllers; exhaustive refers to this depth-bounded space only; suffixes to length 12 "
                           "are sampled" % depth)
-    ck.exhaustive = True
+    ck.exhaustive = ck.n_violations <= FLOOD
     # a GN-like stub (no reject_count attribute) on a few configurations as well
     extra = [(s, p) for s in (2, 6) for p in (1, 3)]
     for idx, (s, p) in enumerate(extra):
-        if ck.mine(idx):
+        if ck.mine(idx) and ck.n_violations <= FLOOD:
             tally = Tally()
             tree_sop(ck, s, p, min(depth, 5), ck.rng(f"treeGN/{s}/{p}"), tally, StubGN)
             ck.count("tree.StopOnPlateau", f"steps{s}/pat{p}/no-reject_count-attribute", n=tally.nodes, key=("GN", s, p))
-
-    # ---- 3: random sequences
-    nseq = 1500 if thorough else 250
-    random_rtb(ck, ck.rng("random-rtb"), nseq)
-    random_sop(ck, ck.rng("random-sop"), nseq)
-
-    # ---- 4: driver loops
-    nd = 40 if thorough else 10
-    drive_optimize(ck, ck.rng("drive-opt"), nd)
-    drive_mpc(ck, ck.rng("drive-mpc"), nd)
-    drive_icp(ck, ck.rng("drive-icp"), nd)
 
     # ---- required regimes / floors
     for mon in ("tree.StopOnPlateau", "tree.ReduceToBason"):
